@@ -902,6 +902,16 @@ def emit_unit(em, repo, u, type_table, log, assumed=False):
     body = rewrite_R8(body, log)
     body = rewrite_R9(body, log)
     body = rewrite_R4(body, log, name)
+    # closures that survive the rewrites (arguments of map / and_then / fold ...): Verus does not infer what they do, so a
+    # failed obligation of such a unit is a tool limit, not a finding — recorded here, used by the driver
+    n_closures = 0
+    prev_sig = None
+    for tk in body:
+        if tk.kind in ("ws", "comment"):
+            continue
+        if tk.kind == "punct" and tk.text in ("|", "||") and (prev_sig is None or prev_sig.text in ("(", ",", "=", "{", ";", "move", "return", "=>")):
+            n_closures += 1
+        prev_sig = tk
     body = splice(body, u, name)
     em.add_tokens_with_marks(body, name, h["file"]) if hasattr(em, "add_tokens_with_marks") else _emit_body(em, body, name, h["file"], u)
     for s in u["sections"]:
@@ -930,7 +940,7 @@ def emit_unit(em, repo, u, type_table, log, assumed=False):
                 em.add("    proof { " + " ".join(x.strip() for x in s["lines"]) + " }", kind="meta", unit=cn)
         em.add("}", kind="canary", unit=cn)
     import hashlib
-    return dict(canary=has_canary, unit=name, file=h["file"], fn=h["fn"], impl=h.get("impl"), lines=[f["line0"], f["line1"]],
+    return dict(canary=has_canary, unit=name, file=h["file"], fn=h["fn"], impl=h.get("impl"), lines=[f["line0"], f["line1"]], closures=n_closures,
                 sha256=hashlib.sha256(text_of(toks[block[0]:block[1] + 1] if block else toks[f["kfn"]:f["b_close"] + 1]).encode()).hexdigest()[:16])
 
 
